@@ -34,7 +34,10 @@ BOUNDS = {
              'message of a reused connection; the same with the peer refusing '
              'the sender / every recipient / the first recipient (4xx or 5xx) '
              'and answering DATA with 354 or 503 before it goes silent at '
-             'DATA, end of data, RSET or QUIT; pipe relay: the program hangs; '
+             'DATA, end of data, RSET or QUIT; a peer that sends an unsolicited '
+             'reply (421 / 250 / 451) behind the EHLO reply of every '
+             'connection it accepts, connections taking a symbolic time below '
+             'the connect timeout; pipe relay: the program hangs; '
              'HTTP relay: the server never responds',
     'thorough': 'trickles of 6 bytes, 2 recipients',
 }
@@ -66,6 +69,8 @@ def cells(tier):
         for pipe in (0, 1):
             out.append({'kind': 'relay_reject_stall', 'lmtp': lmtp,
                         'pipe': pipe})
+    out.append({'kind': 'relay_unsolicited', 'lmtp': 0})
+    out.append({'kind': 'relay_unsolicited', 'lmtp': 1})
     out.append({'kind': 'relay_idle_fragment', 'lmtp': 0, 'pipe': 0})
     out.append({'kind': 'relay_idle_fragment', 'lmtp': 1, 'pipe': 1})
     out.append({'kind': 'relay_trickle', 'k': 4})
@@ -405,6 +410,58 @@ def run_relay_reject_stall(cell):
     else:
         api.prove(done['at'] <= t0 + 20, 'attempt-outlived-its-timeout',
                   at=done['at'], **info)
+
+
+def run_relay_unsolicited(cell):
+    """every connection the peer accepts takes d < connect timeout to open
+    and carries an unsolicited reply right behind the EHLO reply (a server
+    announcing that it is about to close, or a stray line)"""
+    import gevent
+    from .c11 import make_relay, attempt, RC
+    qc.fresh_hub()
+    qc.patch_env()
+    nc.reset()
+    lmtp = cell['lmtp']
+    extra = [b'421 4.4.2 closing\r\n', b'250 stray\r\n',
+             b'451 4.3.0 hiccup\r\n'][api.choice('unsolicited', 3)]
+    d = api.real('connect_delay', 0, 10)
+    api.assume(d > 0)
+    peers = []
+    MAXC = 12
+
+    def creator(address):
+        if len(peers) >= MAXC:
+            raise OSError(111, 'Connection refused')
+        gevent.sleep(d)
+        over = {('LHLO' if lmtp else 'EHLO', None):
+                ('reply', '250', ['hello', '8BITMIME'], extra)}
+        p = nc.ScriptedPeer(nc.ok_script(('8BITMIME',), over),
+                            lmtp=bool(lmtp))
+        p.client.use_fd = True
+        peers.append(p)
+        return p.start()
+    relay = make_relay(lmtp, creator)
+    out = []
+    done = {}
+
+    def go():
+        attempt(relay, qc.make_envelope('m0', 's@z', RC[:1]), out)
+        done['at'] = qc.now()
+    gevent.spawn(go)
+    qc.run_until_quiescent()
+    info = dict(lmtp=lmtp, unsolicited=extra.decode().strip(),
+                connections=len(peers))
+    if not api.prove(len(out) == 1, 'attempt-never-finished', **info):
+        return
+    kind, val = out[0]
+    api.observe('kind', kind)
+    api.prove(kind in ('value', 'relay-error'), 'non-relay-exception',
+              got=type(val).__name__, **info)
+    # one attempt = one connect (10) + banner, EHLO, MAIL, RCPT, DATA (10
+    # each) + end of data (20) + RSET, QUIT (10 each): whatever the peer does,
+    # the attempt is over after the sum of its steps' timeouts
+    api.prove(done['at'] <= 10 + 5 * 10 + 20 + 2 * 10,
+              'attempt-outlived-its-timeout', at=done['at'], **info)
 
 
 def run_relay_idle_fragment(cell):
